@@ -195,10 +195,71 @@ def crash_excerpt(out):
     return '\n'.join(lines[-14:])
 
 
+def build_tool(name):
+    out = os.path.join(H, '.bin', 'tools', name)
+    os.makedirs(os.path.dirname(out), exist_ok=True)
+    modfile = stage()
+    p = subprocess.run([GO, 'build', '-modfile=' + modfile, '-o', out, './cmd/' + name], cwd=H, env=goenv(),
+                       stdout=subprocess.PIPE, stderr=subprocess.STDOUT, text=True)
+    return (out if p.returncode == 0 else None), p.stdout
+
+
+def gen_packages(kind, seed_value, shapes, pkgs, tag, spec=None):
+    """Emit generated shape programs (engine E1) below harness/gen/<tag>/ and return their package paths."""
+    tool, log = build_tool('shapegen')
+    if tool is None:
+        return None, log
+    outdir = os.path.join(H, 'gen', tag)
+    shutil.rmtree(outdir, ignore_errors=True)
+    cmd = [tool, '-out', outdir, '-kind', kind]
+    if spec:
+        cmd += ['-spec', spec]
+    else:
+        cmd += ['-seed', str(seed_value), '-shapes', str(shapes), '-pkgs', str(pkgs)]
+    p = subprocess.run(cmd, cwd=H, env=goenv(), stdout=subprocess.PIPE, stderr=subprocess.STDOUT, text=True)
+    if p.returncode != 0:
+        return None, p.stdout
+    return sorted('gen/%s/%s' % (tag, d) for d in os.listdir(outdir)), ''
+
+
+def run_gen_part(prop, pi, part, tier, base_seed, work, oc):
+    t = part[tier]
+    tag = 's%d-%s-%s-%s' % (base_seed, tier, part['gen'], KEY)
+    pkgs, log = gen_packages(part['gen'], base_seed, t['shapes'], t['pkgs'], tag)
+    if pkgs is None:
+        oc.inconclusive.append('shape generator failed:\n' + log[-3000:])
+        return
+    timeout = t.get('timeout', 900)
+
+    def one(i_pkg):
+        i, pkg = i_pkg
+        binary, blog = build(pkg)
+        if binary is None:
+            return i, pkg, None, blog
+        env = dict(part.get('env', {}))
+        env.update(VERIF_TIER=tier, VERIF_PROP=prop, VERIF_SHARD=i)
+        outdir = os.path.join(work, '%s-%d' % (part['name'], i))
+        args = ['-rapid.checks=%d' % t['draws'], '-rapid.seed=%d' % shard_seed(base_seed, pi, i), '-rapid.nofailfile', '-rapid.shrinktime=10s']
+        rc, out = run_proc(binary, 'TestShapes', outdir, env, args, timeout)
+        return i, pkg, (rc, out, outdir, binary, env), ''
+    with ThreadPoolExecutor(max_workers=min(NCPU, 8)) as ex:
+        for i, pkg, res, blog in ex.map(one, list(enumerate(pkgs))):
+            what = '%s/%s package %d' % (prop, part['name'], i)
+            if res is None:
+                oc.inconclusive.append('build of generated package %s against %s failed:\n%s' % (pkg, REPO, blog[-4000:]))
+                continue
+            rc, out, outdir, binary, env = res
+            classify(rc, out, outdir, what, oc, binary, 'TestShapes', env)
+            oc.logs.append((what, rc, out[-1500:]))
+    shutil.rmtree(os.path.join(H, '.bin', KEY, 'gen_' + tag), ignore_errors=True)
+
+
 def run_part(prop, pi, part, tier, base_seed, work, oc):
     t = part.get(tier)
     if not t:
         return
+    if part.get('kind') == 'gen':
+        return run_gen_part(prop, pi, part, tier, base_seed, work, oc)
     binary, blog = build(part['pkg'], race=part.get('race', False))
     if binary is None:
         oc.inconclusive.append('build of harness package %s against %s failed:\n%s' % (part['pkg'], REPO, blog[-4000:]))
@@ -250,8 +311,36 @@ def count_distinct(hashfiles):
         return len(set(a))
 
 
+def replay_gen(prop, part, path):
+    tag = 'replay-%d-%d' % (os.getpid(), int(time.time() * 1000) % 100000)
+    pkgs, log = gen_packages(part['gen'], 0, 0, 0, tag, spec=os.path.abspath(path))
+    if pkgs is None:
+        return None, log
+    try:
+        binary, blog = build(pkgs[0])
+        if binary is None:
+            return None, blog
+        outdir = os.path.join(ROOT, '.work', tag)
+        rc, out = run_proc(binary, 'TestShapes', outdir, dict(VERIF_TIER='quick'), ['-rapid.checks=300', '-rapid.seed=%d' % seed(), '-rapid.nofailfile'], 600)
+        shutil.rmtree(outdir, ignore_errors=True)
+    finally:
+        shutil.rmtree(os.path.join(H, 'gen', tag), ignore_errors=True)
+        shutil.rmtree(os.path.join(H, '.bin', KEY, ('gen/%s/p0' % tag).replace('/', '_') + '.test'), ignore_errors=True)
+        try:
+            os.remove(os.path.join(H, '.bin', KEY, ('gen/%s/p0' % tag).replace('/', '_') + '.test'))
+        except OSError:
+            pass
+    if rc == 0:
+        return False, out
+    if rc == -999 or 'test timed out' in out:
+        return None, out
+    return True, out
+
+
 def replay_file(prop, part, path, attempts=None):
     """Run one saved scenario through the plain executor (TestReplay*). Returns (failed, output)."""
+    if part.get('kind') == 'gen':
+        return replay_gen(prop, part, path)
     binary, blog = build(part['pkg'], race=part.get('race', False))
     if binary is None:
         return None, blog
@@ -278,6 +367,11 @@ def load_known():
 
 def part_for_failure(prop, fail):
     cfg = PROPS[prop]
+    sc = fail.get('scenario') or {}
+    if isinstance(sc, dict) and sc.get('engine') == 'E1':
+        for part in cfg['parts']:
+            if part.get('kind') == 'gen':
+                return part
     for part in cfg['parts']:
         if part['test'] == fail.get('test') or part.get('replay_test') == fail.get('test'):
             return part
@@ -454,6 +548,8 @@ def setup():
     jobs = []
     for prop, cfg in PROPS.items():
         for part in cfg['parts']:
+            if part.get('kind') == 'gen':
+                continue
             k = (part['pkg'], part.get('race', False))
             if k not in seen:
                 seen.add(k)
